@@ -47,6 +47,25 @@ Sweep(i, total, removed) ==
        ELSE Sweep(i + 1, total - entries[e].size, removed \cup {e})
 AlgoRemoved == IF Total(All) < high THEN {} ELSE Sweep(1, Total(All), {})
 
+\* an entry that the process stores or retrieves WHILE the sweep is running (before sweep step k) is protected from then on
+RECURSIVE SweepLate(_, _, _, _, _)
+SweepLate(i, total, removed, k, who) ==
+  IF i > Len(Order) THEN removed
+  ELSE LET e == Order[i] IN
+       IF entries[e].marked \/ (e = who /\ i >= k) THEN SweepLate(i + 1, total, removed, k, who)
+       ELSE IF total - entries[e].size < low THEN removed \cup {e}
+       ELSE SweepLate(i + 1, total - entries[e].size, removed \cup {e}, k, who)
+RemovedBeforeStep(k) == IF Total(All) < high THEN {} ELSE
+   LET RECURSIVE R(_, _, _)
+       R(i, total, removed) == IF i >= k \/ i > Len(Order) THEN removed
+                               ELSE LET e == Order[i] IN
+                                    IF entries[e].marked THEN R(i + 1, total, removed)
+                                    ELSE IF total - entries[e].size < low THEN removed \cup {e}
+                                    ELSE R(i + 1, total - entries[e].size, removed \cup {e})
+   IN R(1, Total(All), {})
+\* C14 for marks made during the pass: whoever is still there when it gets marked stays
+LateMarkSafe == \A k \in 1..(Cardinality(All) + 1), who \in All :
+                  (Total(All) >= high /\ who \notin RemovedBeforeStep(k)) => who \notin SweepLate(1, Total(All), {}, k, who)
 \* property level
 Triggered == Total(All) >= high
 Unmarked == {i \in All : ~entries[i].marked}
